@@ -77,8 +77,8 @@ def gen_events(ctx, rs, nprng, scale):
         return a
 
     cshape, fshape = (npp, ns, 3, 3), (ns, ns, 3, 3)
-    nbc = min(int(np.prod(cshape)), int((12 if quick else 144) * scale))
-    nbf = min(int(np.prod(fshape)), int((8 if quick else 120) * scale))
+    nbc = min(int(np.prod(cshape)), int((12 if quick else 72) * scale))
+    nbf = min(int(np.prod(fshape)), int((8 if quick else 48) * scale))
     cb = [unit(cshape, p) for p in sorted(nprng.choice(int(np.prod(cshape)), size=nbc, replace=False))]
     fb = [unit(fshape, p) for p in sorted(nprng.choice(int(np.prod(fshape)), size=nbf, replace=False))]
     nd = 3 if quick else 8
@@ -174,27 +174,29 @@ def run_trace(ctx, systems, events, variant):
     -> dict name -> witness event."""
     found = {}
     by_id = {e["id"]: e for e in events}
-    chunks = []
-    cur, size = [], 0
-    for ev in events:
-        n = sum(len(v.get("a", ())) for v in [ev["x"]] + [o for o in ev["obs"].values() if isinstance(o, dict)])
-        if cur and (size + n > 600000 or len(cur) >= 1500):
-            chunks.append(cur)
-            cur, size = [], 0
-        cur.append(ev)
-        size += n
-    if cur:
-        chunks.append(cur)
+    # chunks of <= 700 events, each a deterministic mixture of all systems and routes
+    order = list(events)
+    if len(order) > 700:
+        import random
+        random.Random(12345).shuffle(order)
+    chunks = [order[i:i + 700] for i in range(0, len(order), 700)]
+    if len(order) <= 1500:
+        chunks = [order]
     cov = {}
+    seen_violation = False
     for chunk in chunks:
         used = sorted(set(e["sys"] for e in chunk))
         sysrec = {k: systems[k].record() for k in used}
         mc = MC_TRACE % (to_tla(sysrec), ",\n".join(to_tla(e) for e in chunk))
+        # the first chunk enumerates every violated requirement (-continue: TLC reconstructs a trace per
+        # failing case); once something failed, later chunks stop at their first violation
         res = ctx.tlc("MC_SymmetrizeTrace",
                       cfg_text=cfg_text("Init", "TNext", "MCSystems", "MCEvents", variant,
                                         IMPL_INVS + CONF_INVS + SELF_INVS),
                       extra_files={"MC_SymmetrizeTrace.tla": mc}, requirement=False, workers=WORKERS,
-                      extra_args=("-continue",), coverage=(not ctx.quick and len(events) > 600), keep=True)
+                      extra_args=() if seen_violation else ("-continue",),
+                      coverage=(not ctx.quick and len(events) > 600 and chunk is chunks[0]), keep=True, timeout=3000)
+        seen_violation = seen_violation or bool(res.violated)
         for k, v in res.coverage.items():
             cov[k] = cov.get(k, 0) + v[1]
         for name, st in verdict_names(res).items():
@@ -485,6 +487,10 @@ def run_all(ctx):
     t0 = time.time()
     systems, events = record(ctx)
     ctx.extra["recorded_events"] = len(events)
+    routes = {}
+    for ev in events:
+        routes[ev["route"]] = routes.get(ev["route"], 0) + 1
+    ctx.extra["recorded_events_by_route"] = routes
     ctx.extra["recorded_systems"] = {k: dict(np=v.np_, ns=v.ns, ntrans=len(v.perms)) for k, v in systems.items()}
     ctx.extra["t_record_s"] = round(time.time() - t0, 1)
     cpu0 = sum(os.times()[:4])
